@@ -124,6 +124,17 @@ run_case(const Case &c)
     bool all0 = true;
     for (int i = 0; i < 64; ++i) all0 = all0 && d(e) == 0;
     std::printf("ZPURE default_zero %d\n", all0 ? 1 : 0);
+    // a default-constructed generator has one bin: the CDF at its last (only) bin is exactly 1 - also for its copies
+    bool one = false;
+    try {
+      Gen d2 = d;
+      Gen d3{};
+      d3 = d;
+      one = d.GetCDF(0) == 1.0 && d2.GetCDF(0) == 1.0 && d3.GetCDF(0) == 1.0;
+    } catch (const std::exception &) {
+      one = false;
+    }
+    std::printf("ZPURE default_cdf_one %d\n", one ? 1 : 0);
   }
   for (auto raw : c.raws) {
     std::vector<uint64_t> one{raw};
